@@ -6,6 +6,7 @@ import (
 	"crypto/rand"
 	"crypto/sha256"
 	"encoding/json"
+	"errors"
 	"fmt"
 	"io"
 	"os"
@@ -17,6 +18,10 @@ import (
 
 	"github.com/evstack/ev-node/pkg/signer"
 )
+
+// errEmptyLegacyPassphrase is returned when a key file in the legacy format (no Argon2 salt) is
+// opened with an empty passphrase: the legacy key derivation is not defined for it.
+var errEmptyLegacyPassphrase = errors.New("failed to decrypt private key (wrong passphrase?): legacy key file cannot be opened with an empty passphrase")
 
 // FileSystemSigner implements a signer that securely stores keys on disk
 // and loads them into memory only when needed.
@@ -127,6 +132,9 @@ func ExportPrivateKey(keyPath string, passphrase []byte) ([]byte, error) {
 	// Derive decryption key
 	var derivedKey []byte
 	if len(data.Salt) == 0 {
+		if len(passphrase) == 0 {
+			return nil, errEmptyLegacyPassphrase
+		}
 		derivedKey = fallbackDeriveKey(passphrase, 32)
 	} else {
 		derivedKey = deriveKeyArgon2(passphrase, data.Salt, 32)
@@ -333,6 +341,9 @@ func (s *FileSystemSigner) loadKeys(passphrase []byte) error {
 	// If there's no salt in the file, fallback to older naive deriveKey (for backward-compatibility)
 	var derivedKey []byte
 	if len(data.Salt) == 0 {
+		if len(passphrase) == 0 {
+			return errEmptyLegacyPassphrase
+		}
 		// fallback to naive approach
 		derivedKey = fallbackDeriveKey(passphrase, 32)
 	} else {
